@@ -1030,8 +1030,10 @@ def _back_plan_to_plan(
         Tuple[Action, Tuple[FNode, ...]],
         List[Tuple[Fraction, ActionInstance, Optional[Fraction]]],
     ] = defaultdict(list)
+    # at equal times the end actions come first: durations are positive, so an end
+    # action always closes an instance that was started strictly before it
     for trigger_time, old_action_instance, _ in sorted(
-        plan.timed_actions, key=lambda x: x[0]
+        plan.timed_actions, key=lambda x: (x[0], x[1].action in start_actions)
     ):
         assert isinstance(old_action_instance, ActionInstance)
         old_action = old_action_instance.action
